@@ -6,6 +6,7 @@ Confirmation, in the worktree checked out at /repo's HEAD:
 import json, os, re, shutil, subprocess, sys
 
 wt, prop = sys.argv[1], sys.argv[2]
+ROUND = sys.argv[3] if len(sys.argv) > 3 else ''      # e.g. 'r2': seeds are stored as <PROP>_r2_<k>
 VERIF = os.path.dirname(os.path.dirname(os.path.abspath(__file__)))
 
 
@@ -30,7 +31,7 @@ for k in sorted(os.listdir(out)):
         crate_dir = '.'
     pkg = {'integer': 'dashu-int', 'float': 'dashu-float', 'rational': 'dashu-ratio', 'base': 'dashu-base',
            'macros': 'dashu-macros', '.': 'dashu'}[crate_dir]
-    tname = 'seeddemo_%s_%s' % (prop.lower(), k)
+    tname = 'seeddemo_%s_%s%s' % (prop.lower(), ROUND, k)
     tdir = os.path.join(wt, crate_dir, 'tests')
     os.makedirs(tdir, exist_ok=True)
     tpath = os.path.join(tdir, tname + '.rs')
@@ -69,7 +70,7 @@ for k in sorted(os.listdir(out)):
     ok = meta.get('a_clean_demo_passes') and meta.get('patch_applies') and meta.get('c_patched_demo_fails') \
         and meta.get('b_patched_suite_passes')
     meta['confirmed'] = bool(ok)
-    dst = os.path.join(VERIF, 'seeded', '%s_%s' % (prop, k))
+    dst = os.path.join(VERIF, 'seeded', '%s_%s%s' % (prop, (ROUND + '_') if ROUND else '', k))
     if ok:
         os.makedirs(dst, exist_ok=True)
         shutil.copy(os.path.join(d, 'patch.diff'), dst)
